@@ -1714,11 +1714,18 @@ MODULE_OF['Simulator'] = 'simulator'
 def _with_fuzz(prop, check):
     """the hand-written histories first, then random plans (rt/fuzz.py) from the same generator"""
     def run(env):
+        from rt import fuzz
+        # C05: the hand-written part (process backends) does not finish within the thorough budget, so there the random
+        # plans (threads, a few seconds) go first; everywhere else they follow the hand-written histories
+        first = prop == 'C05' and env.get('tier') == 'thorough'
+        if first:
+            for c in fuzz.fuzz(prop, env):
+                yield c
         for c in check(env):
             yield c
-        from rt import fuzz
-        for c in fuzz.fuzz(prop, env):
-            yield c
+        if not first:
+            for c in fuzz.fuzz(prop, env):
+                yield c
     run.__name__ = getattr(check, '__name__', 'check') + '_with_random_plans'
     return run
 
